@@ -628,6 +628,8 @@ def _run_gm(ctx, case, eu):
 
     def recording(z):
         lp = pure(z)
+        if len(lp) == 0:
+            return lp
         zr = np.asarray(z, dtype=float).reshape(len(lp), -1)
         ok = np.isfinite(lp)
         seen_n[0] += len(lp)
